@@ -101,14 +101,25 @@ theorem bestShadowed_some (sh : GoMap Nat Ep) (hn : NodupKeys sh) (name b : Nat)
     · exact ⟨e, (get_eq_some_iff sh hn b e).2 he, hne⟩
   · intro j e hg hne
     exact h3 (j, e) ((get_eq_some_iff sh hn j e).1 hg) hne
-/-- The invariant behind the no-rename theorem. `l` = the live endpoints. -/
-structure Good (m : Mgr) (l : GoMap Nat Ep) : Prop where
-  a1 : ∀ id e, get m.active id = some e → get l id = some e
-  a2 : ∀ id e, get m.shadowed id = some e → get l id = some e ∧ get m.active id = none
-  a3 : ∀ id e, get l id = some e → get m.active id = some e ∨ get m.shadowed id = some e
+/-- `l` with the value at `id` replaced. -/
+def updL (l : Nat → Option Ep) (id : Nat) (v : Option Ep) : Nat → Option Ep := fun x => if x = id then v else l x
+
+/-- The invariant behind the no-rename theorems.  `l` = the live endpoints as far as the updates
+processed so far say; `P` = the updates of the current batch that are still pending (`[]` between
+batches).  With `P = []` the clauses say: active ∪ shadowed = live, an interface's holder is the
+minimum live id claiming it, and chains/routes are exactly the holders'. -/
+structure Good (m : Mgr) (l : Nat → Option Ep) (P : Pending) : Prop where
+  a1 : ∀ id e, get m.active id = some e → l id = some e
+  a2 : ∀ id e, get m.shadowed id = some e → l id = some e ∧ get m.active id = none
+  a3 : ∀ id e, l id = some e →
+    get m.active id = some e ∨ get m.shadowed id = some e ∨ get P id = some (some e)
   b1 : ∀ name id, get m.ifaceToID name = some id → ∃ e, get m.active id = some e ∧ e.name = name
   b2 : ∀ id e, get m.active id = some e → get m.ifaceToID e.name = some id
-  c : ∀ id e, get m.shadowed id = some e → ∃ a, get m.ifaceToID e.name = some a ∧ a < id
+  /-- a shadowed endpoint waits behind a smaller active holder — or its fate is still pending: it has an
+  entry of its own, or a smaller endpoint claiming the same interface has. -/
+  c : ∀ id e, get m.shadowed id = some e →
+    (∃ a, get m.ifaceToID e.name = some a ∧ a < id) ∨ get P id ≠ none ∨
+    (∃ b eb, get P b = some (some eb) ∧ eb.name = e.name ∧ b < id)
   d1a : ∀ id e, get m.active id = some e → get m.chainsOf id = some e.name
   d1b : ∀ id, get m.active id = none → get m.chainsOf id = none
   d2a : ∀ name id e, get m.ifaceToID name = some id → get m.active id = some e →
@@ -118,8 +129,15 @@ structure Good (m : Mgr) (l : GoMap Nat Ep) : Prop where
     get m.routes name = if e.up then some (id, e.data) else none
   d3b : ∀ name, get m.ifaceToID name = none → get m.routes name = none
   nd : NodupKeys m.shadowed
+  np : NodupKeys P
+  /-- no pending update renames a live endpoint -/
+  nr : ∀ id w, get P id = some (some w) → ∀ e, l id = some e → e.name = w.name
 
-/-- activation without an interface rename. -/
+/-- the tactic used for every clause: push `get` through `set`/`del`, then first-order reasoning. -/
+macro "clause" : tactic => `(tactic| (intros; (try simp only [get_set, get_del, updL] at *); grind))
+
+/-! ### Explicit forms of the composite operations -/
+
 theorem activate_norename (m : Mgr) (id : Nat) (old : Option Ep) (w : Ep)
     (h : ∀ o, old = some o → o.name = w.name) :
     m.activate id old w = { m with
@@ -127,44 +145,12 @@ theorem activate_norename (m : Mgr) (id : Nat) (old : Option Ep) (w : Ep)
       chainsOf := set m.chainsOf id w.name,
       routes := if w.up then set m.routes w.name (id, w.data) else del m.routes w.name,
       active := set m.active id w,
-      ifaceToID := set m.ifaceToID w.name id } := by
+      ifaceToID := set m.ifaceToID w.name id,
+      shadowed := del m.shadowed id } := by
   unfold Mgr.activate
   cases old with
   | none => rfl
   | some o => simp [h o rfl]
-
-/-- U1: update of an endpoint that holds its interface or whose interface is free. -/
-theorem good_update_free (m : Mgr) (l : GoMap Nat Ep) (id : Nat) (w : Ep) (g : Good m l)
-    (hnr : ∀ e, get l id = some e → e.name = w.name)
-    (hfree : ∀ a, get m.ifaceToID w.name = some a → a = id) :
-    Good (m.activate id (get m.active id) w) (set l id w) := by
-  rw [activate_norename m id _ w (fun o ho => hnr o (g.a1 id o ho))]
-  have hns : get m.shadowed id = none := by
-    cases hs : get m.shadowed id with
-    | none => rfl
-    | some e =>
-      obtain ⟨a, ha, hlt⟩ := g.c id e hs
-      have := hnr e (g.a2 id e hs).1
-      rw [this] at ha
-      have := hfree a ha
-      omega
-  obtain ⟨a1, a2, a3, b1, b2, c, d1a, d1b, d2a, d2b, d3a, d3b, nd⟩ := g
-  constructor
-  · intro i e; simp only [get_set]; grind
-  · intro i e; simp only [get_set]; grind
-  · intro i e; simp only [get_set]; grind
-  · intro n i; simp only [get_set]; grind
-  · intro i e; simp only [get_set]; grind
-  · intro i e; simp only [get_set]; grind
-  · intro i e; simp only [get_set]; grind
-  · intro i; simp only [get_set]; grind
-  · intro n i e; simp only [get_set]; grind
-  · intro n; simp only [get_set]; grind
-  · intro n i e; cases hu : w.up <;> simp only [hu, get_set, get_del] <;> grind
-  · intro n; cases hu : w.up <;> simp only [hu, get_set, get_del] <;> grind
-  · exact nd
-
-/-! ### Explicit forms of the composite operations -/
 
 theorem removeActive_some (m : Mgr) (a : Nat) (ea : Ep) (h2 : get m.chainsOf a = some ea.name) :
     m.removeActiveWorkload (some ea) a = { m with
@@ -178,23 +164,24 @@ theorem removeActive_none (m : Mgr) (a : Nat) (h2 : get m.chainsOf a = none) :
   unfold Mgr.removeActiveWorkload Mgr.removeChainsOf
   simp [h2]
 
-theorem process_update_free (m : Mgr) (id : Nat) (w : Ep) (hfree : ∀ a, get m.ifaceToID w.name = some a → a = id) :
-    m.process id (some w) = (m.activate id (get m.active id) w, none) := by
+theorem process_update_free (m : Mgr) (pd : Pending) (id : Nat) (w : Ep)
+    (hfree : ∀ a, get m.ifaceToID w.name = some a → a = id) :
+    m.process pd id (some w) = (m.activate id (get m.active id) w, none) := by
   unfold Mgr.process
   cases h : get m.ifaceToID w.name with
   | none => simp [h]
   | some a => have := hfree a h; subst this; simp [h]
 
-theorem process_update_shadow (m : Mgr) (id : Nat) (w : Ep) (a : Nat) (h : get m.ifaceToID w.name = some a)
-    (hlt : a < id) :
-    m.process id (some w) = ({ m with shadowed := set m.shadowed id w }, none) := by
+theorem process_update_shadow (m : Mgr) (pd : Pending) (id : Nat) (w : Ep) (a : Nat)
+    (h : get m.ifaceToID w.name = some a) (hlt : a < id) :
+    m.process pd id (some w) = ({ m with shadowed := set m.shadowed id w }, none) := by
   unfold Mgr.process
   have hne : a ≠ id := by omega
   simp [h, hne, hlt]
 
-theorem process_update_takeover (m : Mgr) (id : Nat) (w : Ep) (a : Nat) (ea : Ep)
+theorem process_update_takeover (m : Mgr) (pd : Pending) (id : Nat) (w : Ep) (a : Nat) (ea : Ep)
     (h : get m.ifaceToID w.name = some a) (hlt : id < a) (hea : get m.active a = some ea) :
-    m.process id (some w) =
+    m.process pd id (some w) =
       ((({ m with shadowed := set m.shadowed a ea } : Mgr).removeActiveWorkload (some ea) a).activate id
         (get m.active id) w, none) := by
   unfold Mgr.process
@@ -202,15 +189,45 @@ theorem process_update_takeover (m : Mgr) (id : Nat) (w : Ep) (a : Nat) (ea : Ep
   have hnlt : ¬ a < id := by omega
   simp [h, hne, hnlt, hea]
 
-/-- the tactic used for every clause: push `get` through `set`/`del`, then first-order reasoning. -/
-macro "clause" : tactic => `(tactic| (intros; simp only [get_set, get_del]; grind))
+/-! ### One pending UPDATE is processed -/
 
-/-- U2: update of an endpoint whose interface is held by a smaller id: it is (re)shadowed. -/
-theorem good_update_shadow (m : Mgr) (l : GoMap Nat Ep) (id : Nat) (w : Ep) (a : Nat) (g : Good m l)
-    (hnr : ∀ e, get l id = some e → e.name = w.name)
+/-- U1: the endpoint holds its interface already, or the interface is free. -/
+theorem good_update_free (m : Mgr) (l : Nat → Option Ep) (P : Pending) (id : Nat) (w : Ep) (g : Good m l P)
+    (hP : get P id = some (some w))
+    (hfree : ∀ a, get m.ifaceToID w.name = some a → a = id) :
+    Good ({ m with
+      chains := set m.chains w.name ⟨id, w.up, w.data⟩,
+      chainsOf := set m.chainsOf id w.name,
+      routes := if w.up then set m.routes w.name (id, w.data) else del m.routes w.name,
+      active := set m.active id w,
+      ifaceToID := set m.ifaceToID w.name id,
+      shadowed := del m.shadowed id } : Mgr) (updL l id (some w)) (del P id) := by
+  obtain ⟨a1, a2, a3, b1, b2, c, d1a, d1b, d2a, d2b, d3a, d3b, nd, np, nr⟩ := g
+  have hnr := nr id w hP
+  constructor
+  · clause
+  · clause
+  · clause
+  · clause
+  · clause
+  · clause
+  · clause
+  · clause
+  · clause
+  · clause
+  · intro n i e; cases hu : w.up <;> simp only [hu, get_set, get_del, updL] <;> grind
+  · intro n; cases hu : w.up <;> simp only [hu, get_set, get_del, updL] <;> grind
+  · exact nodupKeys_del _ _ nd
+  · exact nodupKeys_del _ _ np
+  · clause
+
+/-- U2: the interface is held by a smaller id: the endpoint is (re)shadowed. -/
+theorem good_update_shadow (m : Mgr) (l : Nat → Option Ep) (P : Pending) (id : Nat) (w : Ep) (a : Nat)
+    (g : Good m l P) (hP : get P id = some (some w))
     (h : get m.ifaceToID w.name = some a) (hlt : a < id) :
-    Good ({ m with shadowed := set m.shadowed id w } : Mgr) (set l id w) := by
-  obtain ⟨a1, a2, a3, b1, b2, c, d1a, d1b, d2a, d2b, d3a, d3b, nd⟩ := g
+    Good ({ m with shadowed := set m.shadowed id w } : Mgr) (updL l id (some w)) (del P id) := by
+  obtain ⟨a1, a2, a3, b1, b2, c, d1a, d1b, d2a, d2b, d3a, d3b, nd, np, nr⟩ := g
+  have hnr := nr id w hP
   have hna : get m.active id = none := by
     cases hact : get m.active id with
     | none => rfl
@@ -233,40 +250,34 @@ theorem good_update_shadow (m : Mgr) (l : GoMap Nat Ep) (id : Nat) (w : Ep) (a :
   · clause
   · clause
   · exact nodupKeys_set _ _ _ nd
+  · exact nodupKeys_del _ _ np
+  · clause
 
-/-- U3: update of a not-yet-live endpoint whose interface is held by a LARGER id: the holder is shadowed. -/
-theorem good_update_takeover (m : Mgr) (l : GoMap Nat Ep) (id : Nat) (w : Ep) (a : Nat) (ea : Ep) (g : Good m l)
-    (hnr : ∀ e, get l id = some e → e.name = w.name)
+/-- U3: the interface is held by a LARGER id: the holder is shadowed and the endpoint takes over. -/
+theorem good_update_takeover (m : Mgr) (l : Nat → Option Ep) (P : Pending) (id : Nat) (w : Ep) (a : Nat) (ea : Ep)
+    (g : Good m l P) (hP : get P id = some (some w))
     (h : get m.ifaceToID w.name = some a) (hea : get m.active a = some ea) (hlt : id < a) :
     Good ({ m with
       active := set (del m.active a) id w,
       ifaceToID := set (del m.ifaceToID w.name) w.name id,
-      shadowed := set m.shadowed a ea,
+      shadowed := del (set m.shadowed a ea) id,
       chainsOf := set (del m.chainsOf a) id w.name,
       chains := set (del m.chains w.name) w.name ⟨id, w.up, w.data⟩,
       routes := if w.up then set (del m.routes w.name) w.name (id, w.data) else del (del m.routes w.name) w.name } : Mgr)
-      (set l id w) := by
-  obtain ⟨a1, a2, a3, b1, b2, c, d1a, d1b, d2a, d2b, d3a, d3b, nd⟩ := g
+      (updL l id (some w)) (del P id) := by
+  obtain ⟨a1, a2, a3, b1, b2, c, d1a, d1b, d2a, d2b, d3a, d3b, nd, np, nr⟩ := g
+  have hnr := nr id w hP
   have hean : ea.name = w.name := by
     obtain ⟨e, he, hn⟩ := b1 _ _ h
     rw [hea] at he; cases he; exact hn
-  have hl : get l id = none := by
-    cases hl : get l id with
-    | none => rfl
-    | some e =>
-      have hn := hnr e hl
-      rcases a3 id e hl with h1 | h1
-      · have := b2 id e h1; rw [hn, h] at this; simp only [Option.some.injEq] at this; omega
-      · obtain ⟨a', ha', hlt'⟩ := c id e h1
-        rw [hn, h] at ha'; simp only [Option.some.injEq] at ha'; omega
   have hna : get m.active id = none := by
     cases hact : get m.active id with
     | none => rfl
-    | some e => have := a1 id e hact; rw [hl] at this; cases this
-  have hns : get m.shadowed id = none := by
-    cases hs : get m.shadowed id with
-    | none => rfl
-    | some e => have := (a2 id e hs).1; rw [hl] at this; cases this
+    | some e =>
+      have h1 := hnr e (a1 id e hact)
+      have h2 := b2 id e hact
+      rw [h1, h] at h2
+      simp only [Option.some.injEq] at h2; omega
   have hsa : get m.shadowed a = none := by
     cases hs : get m.shadowed a with
     | none => rfl
@@ -282,256 +293,11 @@ theorem good_update_takeover (m : Mgr) (l : GoMap Nat Ep) (id : Nat) (w : Ep) (a
   · clause
   · clause
   · clause
-  · intro n i e; cases hu : w.up <;> simp only [hu, get_set, get_del] <;> grind
-  · intro n; cases hu : w.up <;> simp only [hu, get_set, get_del] <;> grind
-  · exact nodupKeys_set _ _ _ nd
+  · intro n i e; cases hu : w.up <;> simp only [hu, get_set, get_del, updL] <;> grind
+  · intro n; cases hu : w.up <;> simp only [hu, get_set, get_del, updL] <;> grind
+  · exact nodupKeys_del _ _ (nodupKeys_set _ _ _ nd)
+  · exact nodupKeys_del _ _ np
+  · clause
 
-/-- R1: removal of an endpoint that is not active (shadowed or unknown). -/
-theorem good_remove_inactive (m : Mgr) (l : GoMap Nat Ep) (id : Nat) (g : Good m l)
-    (hna : get m.active id = none) :
-    Good ({ m with chainsOf := del m.chainsOf id, active := del m.active id, shadowed := del m.shadowed id } : Mgr)
-      (del l id) := by
-  obtain ⟨a1, a2, a3, b1, b2, c, d1a, d1b, d2a, d2b, d3a, d3b, nd⟩ := g
-  constructor
-  · clause
-  · clause
-  · clause
-  · clause
-  · clause
-  · clause
-  · clause
-  · clause
-  · clause
-  · clause
-  · clause
-  · clause
-  · exact nodupKeys_del _ _ nd
-
-/-- R2: removal of an active endpoint nobody is waiting behind. -/
-theorem good_remove_active (m : Mgr) (l : GoMap Nat Ep) (id : Nat) (e : Ep) (g : Good m l)
-    (he : get m.active id = some e)
-    (hnone : ∀ j ej, get (del m.shadowed id) j = some ej → ej.name ≠ e.name) :
-    Good ({ m with
-      chains := del m.chains e.name, chainsOf := del m.chainsOf id, routes := del m.routes e.name,
-      ifaceToID := del m.ifaceToID e.name, active := del m.active id, shadowed := del m.shadowed id } : Mgr)
-      (del l id) := by
-  obtain ⟨a1, a2, a3, b1, b2, c, d1a, d1b, d2a, d2b, d3a, d3b, nd⟩ := g
-  simp only [get_del] at hnone
-  constructor
-  · clause
-  · clause
-  · clause
-  · clause
-  · clause
-  · clause
-  · clause
-  · clause
-  · clause
-  · clause
-  · clause
-  · clause
-  · exact nodupKeys_del _ _ nd
-
-/-- R3: removal of an active endpoint; the smallest endpoint waiting behind it is promoted. -/
-theorem good_remove_promote (m : Mgr) (l : GoMap Nat Ep) (id : Nat) (e : Ep) (b : Nat) (eb : Ep) (g : Good m l)
-    (he : get m.active id = some e)
-    (hb : get (del m.shadowed id) b = some eb) (hbn : eb.name = e.name)
-    (hmin : ∀ j ej, get (del m.shadowed id) j = some ej → ej.name = e.name → b ≤ j) :
-    Good ({ m with
-      chains := set (del m.chains e.name) e.name ⟨b, eb.up, eb.data⟩,
-      chainsOf := set (del m.chainsOf id) b e.name,
-      routes := if eb.up then set (del m.routes e.name) e.name (b, eb.data) else del (del m.routes e.name) e.name,
-      ifaceToID := set (del m.ifaceToID e.name) e.name b,
-      active := set (del m.active id) b eb,
-      shadowed := del (del m.shadowed id) b } : Mgr)
-      (del l id) := by
-  obtain ⟨a1, a2, a3, b1, b2, c, d1a, d1b, d2a, d2b, d3a, d3b, nd⟩ := g
-  simp only [get_del] at hmin hb
-  have hbid : b ≠ id := by intro h; subst h; simp at hb
-  have hb' : get m.shadowed b = some eb := by simpa [Ne.symm hbid] using hb
-  constructor
-  · clause
-  · clause
-  · clause
-  · clause
-  · clause
-  · intro i ei; simp only [get_set, get_del]
-    intro hs
-    have hi1 : id ≠ i := by intro h; subst h; simp at hs
-    have hi2 : b ≠ i := by intro h; subst h; simp at hs
-    simp only [hi1, hi2, if_false] at hs
-    obtain ⟨a, ha, hlt⟩ := c i ei hs
-    by_cases hn : e.name = ei.name
-    · refine ⟨b, by simp [hn], ?_⟩
-      have := hmin i ei (by simp [hi1, hs]) hn.symm
-      omega
-    · exact ⟨a, by simp [hn, ha], hlt⟩
-  · clause
-  · clause
-  · clause
-  · clause
-  · intro n i ei; cases hu : eb.up <;> simp only [hu, get_set, get_del] <;> grind
-  · intro n; cases hu : eb.up <;> simp only [hu, get_set, get_del] <;> grind
-  · exact nodupKeys_del _ _ (nodupKeys_del _ _ nd)
-
-theorem good_update (m : Mgr) (l : GoMap Nat Ep) (id : Nat) (w : Ep) (g : Good m l)
-    (hnr : ∀ e, get l id = some e → e.name = w.name) :
-    Good (m.resolve id (some w)) (set l id w) := by
-  have hold : ∀ o, get m.active id = some o → o.name = w.name := fun o ho => hnr o (g.a1 id o ho)
-  unfold Mgr.resolve
-  cases h : get m.ifaceToID w.name with
-  | none =>
-    rw [process_update_free m id w (by intro a ha; rw [h] at ha; cases ha)]
-    exact good_update_free m l id w g hnr (by intro a ha; rw [h] at ha; cases ha)
-  | some a =>
-    by_cases hai : a = id
-    · have hf : ∀ a', get m.ifaceToID w.name = some a' → a' = id := by
-        intro a' ha'; rw [h] at ha'; cases ha'; exact hai
-      rw [process_update_free m id w hf]
-      exact good_update_free m l id w g hnr hf
-    · by_cases hlt : a < id
-      · rw [process_update_shadow m id w a h hlt]
-        exact good_update_shadow m l id w a g hnr h hlt
-      · have hlt' : id < a := by omega
-        obtain ⟨ea, hea, hean⟩ := g.b1 _ _ h
-        rw [process_update_takeover m id w a ea h hlt' hea]
-        have hc : get ({ m with shadowed := set m.shadowed a ea } : Mgr).chainsOf a = some ea.name := g.d1a a ea hea
-        rw [removeActive_some _ a ea hc, activate_norename _ id _ w hold]
-        have := good_update_takeover m l id w a ea g hnr h hea hlt'
-        simp only [hean] at this ⊢
-        exact this
-
-theorem process_remove_inactive (m : Mgr) (id : Nat) (he : get m.active id = none) (hc : get m.chainsOf id = none) :
-    m.process id none =
-      ({ m with chainsOf := del m.chainsOf id, active := del m.active id, shadowed := del m.shadowed id }, none) := by
-  unfold Mgr.process
-  simp [he, removeActive_none m id hc]
-
-theorem process_remove_active_none (m : Mgr) (id : Nat) (e : Ep) (he : get m.active id = some e)
-    (hc : get m.chainsOf id = some e.name) (hb : bestShadowed (del m.shadowed id) e.name = none) :
-    m.process id none = ({ m with
-      chains := del m.chains e.name, chainsOf := del m.chainsOf id, routes := del m.routes e.name,
-      ifaceToID := del m.ifaceToID e.name, active := del m.active id, shadowed := del m.shadowed id }, none) := by
-  unfold Mgr.process
-  simp [he, removeActive_some m id e hc, hb]
-
-theorem process_remove_active_some (m : Mgr) (id : Nat) (e : Ep) (b : Nat) (eb : Ep) (he : get m.active id = some e)
-    (hc : get m.chainsOf id = some e.name) (hb : bestShadowed (del m.shadowed id) e.name = some b)
-    (hgb : get (del m.shadowed id) b = some eb) :
-    m.process id none = ({ m with
-      chains := del m.chains e.name, chainsOf := del m.chainsOf id, routes := del m.routes e.name,
-      ifaceToID := del m.ifaceToID e.name, active := del m.active id, shadowed := del (del m.shadowed id) b },
-      some (b, eb)) := by
-  unfold Mgr.process
-  simp [he, removeActive_some m id e hc, hb, hgb]
-
-theorem good_remove (m : Mgr) (l : GoMap Nat Ep) (id : Nat) (g : Good m l) :
-    Good (m.resolve id none) (del l id) := by
-  unfold Mgr.resolve
-  cases he : get m.active id with
-  | none =>
-    rw [process_remove_inactive m id he (g.d1b id he)]
-    exact good_remove_inactive m l id g he
-  | some e =>
-    have hc : get m.chainsOf id = some e.name := g.d1a id e he
-    have hnd : NodupKeys (del m.shadowed id) := nodupKeys_del _ _ g.nd
-    cases hb : bestShadowed (del m.shadowed id) e.name with
-    | none =>
-      rw [process_remove_active_none m id e he hc hb]
-      exact good_remove_active m l id e g he (bestShadowed_none _ hnd _ hb)
-    | some b =>
-      obtain ⟨⟨eb, hgb, hbn⟩, hmin⟩ := bestShadowed_some _ hnd _ b hb
-      rw [process_remove_active_some m id e b eb he hc hb hgb]
-      simp only
-      have hfree : ∀ a, get (del m.ifaceToID e.name) eb.name = some a → a = b := by
-        intro a ha; rw [hbn, get_del] at ha; simp at ha
-      rw [process_update_free _ b eb hfree]
-      have hab : get (del m.active id) b = none := by
-        rw [get_del]; split
-        · rfl
-        · have hb' : get m.shadowed b = some eb := by
-            rw [get_del] at hgb; split at hgb
-            · cases hgb
-            · exact hgb
-          exact (g.a2 b eb hb').2
-      simp only [hab]
-      rw [activate_norename _ b none eb (by intro o ho; cases ho)]
-      have := good_remove_promote m l id e b eb g he hgb hbn hmin
-      simp only [hbn] at this ⊢
-      exact this
-
-theorem good_new : Good Mgr.new [] := by
-  constructor <;> intros <;> simp_all [Mgr.new, C18.get, NodupKeys, C18.keys]
-
-theorem good_run (ops : List Op) (m : Mgr) (l : GoMap Nat Ep) (g : Good m l) (hl : NodupKeys l)
-    (hnr : NoRenameFrom l ops) :
-    Good (ops.foldl Mgr.step m) (ops.foldl liveStep l) ∧ NodupKeys (ops.foldl liveStep l) := by
-  induction ops generalizing m l with
-  | nil => exact ⟨g, hl⟩
-  | cons op r ih =>
-    simp only [List.foldl_cons]
-    cases op with
-    | update id w =>
-      exact ih _ _ (good_update m l id w g hnr.1) (nodupKeys_set _ _ _ hl) hnr.2
-    | remove id =>
-      exact ih _ _ (good_remove m l id g) (nodupKeys_del _ _ hl) hnr
-
-/-- In a `Good` state the holder of an interface is the minimum live claimant. -/
-theorem best_of_good (m : Mgr) (l : GoMap Nat Ep) (g : Good m l) (hl : NodupKeys l) (name : Nat) :
-    bestShadowed l name = get m.ifaceToID name := by
-  cases hi : get m.ifaceToID name with
-  | none =>
-    cases hb : bestShadowed l name with
-    | none => rfl
-    | some b =>
-      exfalso
-      obtain ⟨⟨e, he, hn⟩, _⟩ := bestShadowed_some l hl name b hb
-      rcases g.a3 b e he with h1 | h1
-      · have := g.b2 b e h1; rw [hn, hi] at this; cases this
-      · obtain ⟨a, ha, _⟩ := g.c b e h1; rw [hn, hi] at ha; cases ha
-  | some h =>
-    obtain ⟨e, hact, hen⟩ := g.b1 name h hi
-    have hlh := g.a1 h e hact
-    cases hb : bestShadowed l name with
-    | none => exact absurd hen (bestShadowed_none l hl name hb h e hlh)
-    | some b =>
-      obtain ⟨⟨eb, heb, hn⟩, hmin⟩ := bestShadowed_some l hl name b hb
-      have hle := hmin h e hlh hen
-      rcases g.a3 b eb heb with h1 | h1
-      · have := g.b2 b eb h1; rw [hn, hi] at this; cases this; rfl
-      · obtain ⟨a, ha, hlt⟩ := g.c b eb h1; rw [hn, hi] at ha; cases ha; omega
-
-theorem chains_of_good (m : Mgr) (l : GoMap Nat Ep) (g : Good m l) (hl : NodupKeys l) (name : Nat) :
-    get m.chains name = specChains l name ∧ get m.routes name = specRoutes l name := by
-  unfold specChains specRoutes preferred
-  rw [best_of_good m l g hl name]
-  cases hi : get m.ifaceToID name with
-  | none => exact ⟨g.d2b name hi, g.d3b name hi⟩
-  | some h =>
-    obtain ⟨e, hact, hen⟩ := g.b1 name h hi
-    have hlh := g.a1 h e hact
-    simp only [Option.bind_some, hlh, Option.map_some]
-    refine ⟨g.d2a name h e hi hact, ?_⟩
-    rw [g.d3a name h e hi hact]
-
-/-- The minimum scan only depends on the map as a function. -/
-theorem bestShadowed_congr (l1 l2 : GoMap Nat Ep) (h1 : NodupKeys l1) (h2 : NodupKeys l2)
-    (h : ∀ id, get l1 id = get l2 id) (name : Nat) : bestShadowed l1 name = bestShadowed l2 name := by
-  cases hb1 : bestShadowed l1 name with
-  | none =>
-    cases hb2 : bestShadowed l2 name with
-    | none => rfl
-    | some b =>
-      obtain ⟨⟨e, he, hn⟩, _⟩ := bestShadowed_some l2 h2 name b hb2
-      exact absurd hn (bestShadowed_none l1 h1 name hb1 b e (by rw [h]; exact he))
-  | some a =>
-    obtain ⟨⟨ea, hea, hna⟩, hmina⟩ := bestShadowed_some l1 h1 name a hb1
-    cases hb2 : bestShadowed l2 name with
-    | none => exact absurd hna (bestShadowed_none l2 h2 name hb2 a ea (by rw [← h]; exact hea))
-    | some b =>
-      obtain ⟨⟨eb, heb, hnb⟩, hminb⟩ := bestShadowed_some l2 h2 name b hb2
-      have := hmina b eb (by rw [h]; exact heb) hnb
-      have := hminb a ea (by rw [← h]; exact hea) hna
-      congr 1; omega
 
 end CalicoVerif.C44
